@@ -70,7 +70,9 @@ CLAIMS = {
          'larger answer, the policy is asked with the current capacity, the answer is adopted exactly when the buffer is full (the only situation in which the readers '
          'grow: every consultation happens at offset 0 with a full buffer), BufferLimit iff the policy refused in that call, set_policy changes only the policy, the '
          'built-in policies (definitions regenerated from policy.rs) compute the documented sizes and equal the executable ones; C18_fa_steady_run / C18_fq_steady_run '
-         'add: input whose records all fit is read without any consultation. Tie: recording policies, grow_to log and offered read sizes compared with the model; '
+         'add: input whose records all fit is read without any consultation; C09s.v (10): the same END-TO-END for ANY history of next(), owned reads, PLAIN record-set reads into two slots, '
+         're-iteration and position queries, both formats: if every record\'s needed window fits the initial capacity (a property of the input alone: FaAllRecordsFit / FqAllRecordsFit) '
+         'the policy is never consulted and the capacity never changes, for every input length; the threshold is exact (examples: one byte less and the log has a consultation). Tie: recording policies, grow_to log and offered read sizes compared with the model; '
          'oracle "no request when every needed window fits"; policies on a grid around thresholds.',
     technique='Coq structural proofs over all states + theorems over policy code generated from the source + differential run with recording policies',
     ref='5 C09'),
@@ -110,8 +112,12 @@ CLAIMS = {
  'C15': dict(
     text='Theorems of C15.v (9): the reader error is enqueued at most once and only after exactly e successful fills, nothing past it is filled, a draining consumer '
          'sees it exactly once after all earlier sets; init-closure failures end the run with Err (no hang, no panic); reader_init failure -> recv sees Closed -> None. '
-         'Equality with the sequential parse error is checked by the black-box runs (the model carries no error value).',
-    technique='Coq invariant proofs over the protocol model + trace acceptance + black-box comparison with the sequential reader',
+         'C15c.v (12): the COMPOSITION of the protocol model with the reader models - the fill script is instantiated with what read_record_set really does on an input '
+         '(fq_fill_seq / fa_fill_seq; the recycled set passed in does not matter): for every input, configuration, thread count, queue length and ALL schedules a draining consumer '
+         'receives every batch the reader produced exactly once with its work result (in file order with one worker), the batches concatenate to a prefix of the leading records of the Spec stream '
+         '(all records when there is no invalid one; records parsed in the same call as the invalid record are dropped with the cleared set - counter-example kept), and the error received, exactly once, '
+         'is the Spec error = the error sequential next() reading returns (C15_*_fill_seq_vs_sequential). Black-box runs additionally compare the real parallel functions with the real sequential reader.',
+    technique='Coq invariant proofs over the protocol model, composed with the reader refinement theorems + trace acceptance + black-box comparison with the sequential reader',
     ref='5 C15'),
  'C16': dict(
     text='Theorems of C16.v (5): at most queue_len + 1 data sets are ever created, token conservation (every set is in exactly one place), the reader is never more '
@@ -162,7 +168,10 @@ CLAIMS = {
  'C20': dict(
     text='Theorems (Props/C20.v): for every record and every sequence of front/back steps the SeqLines model refines a '
          'double-ended queue over the record\'s lines (each line once, ends meet, len()/size_hint() exact after every step, fused, '
-         'enumerate().rev() indices true); reader end is sticky. Tie: all step sequences on records with up to 4-5 lines and random '
+         'enumerate().rev() indices true); reader end is sticky. C20i.v (33) over Model/Iters.v: the record-set iterators (FASTA: Take over the position slice, '
+         'stale entries beyond npos never shown; FASTQ) yield exactly the records of the set, are fused, and their (default) size hint brackets the remaining count after every step; '
+         'the owned-record iterators records()/into_records() are next() mapped through to_owned_record, yield the owned Spec stream, and once they returned None they return None for ever '
+         '(after which errors the end follows, and that BufferLimit is NOT an end, is stated exactly). Tie: all step sequences on records with up to 4-5 lines and random '
          'files are run on the real iterators and compared with the model and with the deque oracle.',
     technique='Coq proof (refinement of the iterator model to an abstract deque, induction over step sequences) + model/implementation differential run',
     ref='5 C20'),
